@@ -816,7 +816,7 @@ impl Family for BinaryOptions {
         let sc = self.scenario(idx);
         let mut out = CaseOut::new(hash_str(&format!("c01bin{:?}{idx}", self.vectors.len())));
         out.nontrivial = true;
-        let obs = run(&sc, Duration::from_secs(10));
+        let obs = run(&sc, Duration::from_secs(20));
         let desc = || format!("argv {:?}\nexit {:?} signal {:?} timed_out {}\nstderr {}", obs.argv, obs.exit_code, obs.signal, obs.timed_out, show_bytes(&obs.stderr));
         if obs.timed_out {
             out.violate("c01/binary-options/hang", desc());
